@@ -29,7 +29,7 @@ ASSUMPTIONS = [
     "a planting date on 29 February cannot recur in consecutive years and is not generated",
     "known finding F16c (window for which the library schedules no season -> IndexError) is reported as KNOWN-FINDING, keyed to that exception site",
 ]
-BUDGET = {"quick": 330, "thorough": 6000}
+BUDGET = {"quick": 480, "thorough": 6000}
 CRASH_IS_VIOLATION = True
 EXHAUSTIVE_NOTE = "thorough enumerates the complete 37 x 15 x 6 catalogue with default options; quick a rotating 1-in-6 stride of it; options per cell are sampled"
 PROFILE = gen.profile(seasons=(1, 2), max_days=800, p_gdd=0.45, switches=True, p_override=0.3, p_custom_soil=0.0, p_dz=0.0, p_soil_args=0.4,
